@@ -276,7 +276,8 @@ def generate_mpo(I, terms=None, opts_svd=None, N=None, f_map=None) -> MpsMpoOBC:
         reshapes.append((leg2, leg3, sorted(reshape)))
 
     amplitudes = [term.amplitude * sign for term, sign in zip(terms, signs)]
-    dtype = 'complex128' if any(isinstance(a, complex) for a in amplitudes) else config.default_dtype
+    is_complex = any(np.iscomplexobj(a) for a in amplitudes) or any(b.yastn_dtype == 'complex128' for b in basis)
+    dtype = 'complex128' if is_complex else config.default_dtype
     J = Tensor(config=config, s=(-1, 1), dtype=dtype)
     J.set_block(ts=(tleft, tleft), Ds=(1, M), val=amplitudes)
 
